@@ -1050,8 +1050,11 @@ fn run_seq_case(h: &H, out: &mut Out, idx: &str, kind: usize, t: usize, k: usize
     }
     let mut done = 0usize;
     let mut okc = 0usize;
+    // a worker's whole run is awaited: allow for the 40 ms Nagle / delayed-ACK stall a notify followed by a
+    // call costs on the WebSocket client (it connects with Nagle on), on top of the watchdog
+    let allowance = call_watchdog() + Duration::from_millis(60 * k as u64);
     while done < t {
-        match drx.recv_timeout(call_watchdog()) {
+        match drx.recv_timeout(allowance) {
             Ok((_, j, e)) => {
                 done += 1;
                 if e.is_empty() {
